@@ -87,18 +87,26 @@ def effective_part(ctx):
     import re
     sdir = os.path.join(ctx.scratch(), "eff")
     os.makedirs(sdir, exist_ok=True)
-    n = 24 if ctx.tier == "thorough" else 8
+    n = 36 if ctx.tier == "thorough" else 12
 
     def one(i):
         r = core.Rng("c20eff", ctx.seed, i)
         d = os.path.join(sdir, "e%02d" % i)
         os.makedirs(d, exist_ok=True)
-        per_rev = (i % 2 == 0)
-        name = "StepsPerRevolution" if per_rev else "StepsPerTs"
+        name = ["StepsPerRevolution", "StepsPerTs", "DampingTime"][i % 3]
+        per_rev = (name == "StepsPerRevolution")
         def val():
+            if name == "DampingTime":
+                # (0 is a legal value with a meaning of its own: no Fokker-Planck term; negative: calculate from the ring parameters)
+                return r.choice([0.0, 0.0, 2e-3, 5e-3, 1.3e-2, -1.0])
             return round(r.uniform(0.2, 3.0), 4) if per_rev else r.randint(30, 900)
-        where = ["cli", "cfg", "both", "cfg_alias" if not per_rev else "both"][i % 4]
+        where = ["cli", "cfg", "both", "cfg_alias" if name == "StepsPerTs" else "both"][i % 4]
         vcli, vcfg = val(), val()
+        if name == "DampingTime" and where == "both":
+            for _ in range(6):
+                if vcli != vcfg:
+                    break
+                vcfg = val()
         opts = dict(GridSize=32, rotations=0.02, output="o.h5", verbose=True)
         cfgtext = ""
         if where in ("cli", "both"):
@@ -123,6 +131,26 @@ def effective_part(ctx):
             continue
         ctx.case("eff:%s:%s:%s:%s" % (o["name"], o["where"], o["cli"], o["cfg"]))
         ctx.ev("effective_values_checked_in_program_runs")
+        if o["name"] == "DampingTime":
+            # what takes effect: no Fokker-Planck term for 0, the given damping time for a positive value (the program reports
+            # 1/(t_damp*f_s*2 pi) as "damping beta"), the calculated one for a negative value
+            eff, out = o["effective"], res["out"]
+            ctx.ev("effective_damping_times_checked")
+            mb = re.search(r"damping beta: ([0-9.eE+-]+)", out)
+            P = o["P"]
+            if eff == 0:
+                okd = "Fokker-Planck-Term is neglected" in out and not mb
+                want = "no Fokker-Planck term"
+            elif eff > 0:
+                okd = bool(mb) and abs(float(mb.group(1)) * eff * P["fs"] * 2 * 3.141592653589793 - 1) < 1e-4
+                want = "damping beta %.6e" % (1 / (eff * P["fs"] * 2 * 3.141592653589793))
+            else:
+                okd = bool(mb) and "(set value" not in out
+                want = "damping time calculated from the ring parameters"
+            if not okd:
+                ctx.violation("C20:effective:DampingTime:" + o["where"], "the damping the program reports is not the one implied by the option value with the highest precedence",
+                              dict(w, effective_value=eff, expected=want, reported=(mb.group(0) if mb else "Fokker-Planck-Term is neglected" if "neglected" in out else "nothing")))
+            continue
         got, unit = float(o["m"].group(1)), o["m"].group(2)
         P = o["P"]
         want = P["steps"] if unit == "synchrotron" else P["steps"] * P["fs"] / P["frev"]      # steps per synchrotron period / per revolution
@@ -206,4 +234,4 @@ def run(ctx):
     process_part(ctx)
     effective_part(ctx)
     filename_part(ctx)
-    ctx.min_events = {"file_name_precedence_runs": 6, "parses": 2000, "option_values_checked": 100000, "cli_vs_config_conflicts_checked": 3000, "alias_uses_checked": 500, "process_runs": 30, "effective_values_checked_in_program_runs": 4}
+    ctx.min_events = {"file_name_precedence_runs": 6, "parses": 2000, "option_values_checked": 100000, "cli_vs_config_conflicts_checked": 3000, "alias_uses_checked": 500, "process_runs": 30, "effective_values_checked_in_program_runs": 6, "effective_damping_times_checked": 2}
